@@ -18,6 +18,11 @@ type UnionBranch struct {
 	// Suffix, when set, renames every output column of this branch (<name><suffix>): rows of different
 	// branches then differ in their column names
 	Suffix string `json:"suffix,omitempty"`
+	// Win: the branch is parenthesised and carries its own LIMIT Lim OFFSET Off (a window of its own
+	// source-order sequence, taken before the union operator sees the rows)
+	Win bool `json:"win,omitempty"`
+	Lim int  `json:"lim,omitempty"`
+	Off int  `json:"off,omitempty"`
 }
 
 type C06Case struct {
@@ -49,7 +54,7 @@ func init() {
 		Title: "DISTINCT removes exactly the duplicates; UNION [ALL] concatenates [and dedups]",
 		Rule: "rapid draws tables with heavy duplication (value pools of 2-3 per column), select lists of columns and simple expressions, and " +
 			"either SELECT DISTINCT (oracle: reference first-occurrence sequence; also SELECT DISTINCT * over heterogeneous rows whose key sets differ at equal width, and SELECT DISTINCT over a grouped aggregate-only select list) or a union chain of 2-4 branches (a fifth of the later branches rename their output columns) " +
-			"with any mix of UNION / UNION ALL (two fifths of the chains made of aggregate branches, whole or grouped, with the same textual aggregates) and an optional trailing LIMIT (oracle: left-associative reference; pure UNION ALL chains compared " +
+			"with any mix of UNION / UNION ALL (a fifth of the branches parenthesised with a LIMIT / OFFSET of their own; two fifths of the chains made of aggregate branches, whole or grouped, with the same textual aggregates) and an optional trailing LIMIT (oracle: left-associative reference; pure UNION ALL chains compared " +
 			"as sequence, others as multiset with the reference's multiplicities; LIMIT: length min(n,|combined|), exact prefix for pure UNION ALL " +
 			"chains, else a sub-multiset of the combined result that is duplicate-free when the last operator is UNION). Non-trivial: >=1 duplicate " +
 			"output row / overlapping branches.",
@@ -224,6 +229,11 @@ func genC06(t *rapid.T) any {
 		if b > 0 && c.Agg == "" && rapid.IntRange(0, 4).Draw(t, fmt.Sprintf("b%d.rename", b)) == 0 {
 			br.Suffix = rapid.SampledFrom([]string{"_2", "x"}).Draw(t, fmt.Sprintf("b%d.suffix", b))
 		}
+		if rapid.IntRange(0, 4).Draw(t, fmt.Sprintf("b%d.win", b)) == 0 {
+			br.Win = true
+			br.Lim = rapid.IntRange(0, 5).Draw(t, fmt.Sprintf("b%d.lim", b))
+			br.Off = rapid.IntRange(0, 3).Draw(t, fmt.Sprintf("b%d.off", b))
+		}
 		c.Branches = append(c.Branches, br)
 		s := "SELECT " + renderSelect(c.branchItems(br), 0, nil) + " FROM " + key
 		switch c.Agg {
@@ -237,6 +247,13 @@ func genC06(t *rapid.T) any {
 		}
 		if c.Agg == "grouped" {
 			s += " GROUP BY " + c.AggKey
+		}
+		if br.Win {
+			if br.Off > 0 {
+				s = fmt.Sprintf("(%s LIMIT %d OFFSET %d)", s, br.Lim, br.Off)
+			} else {
+				s = fmt.Sprintf("(%s LIMIT %d)", s, br.Lim)
+			}
 		}
 		if b > 0 {
 			if br.All {
@@ -368,6 +385,11 @@ func checkC06(c *C06Case) Result {
 		if err != nil {
 			discardOrHarness(&res, err)
 			return res
+		}
+		if br.Win {
+			lo := minInt(br.Off, len(part))
+			part = part[lo:minInt(len(part), lo+br.Lim)]
+			res.Labels = append(res.Labels, "branch-window")
 		}
 		if i == 0 {
 			combined = part
